@@ -15,7 +15,7 @@ using namespace cocls;
 
 namespace {
 constexpr int MAXC = 4, MAXL = 4, NG = 2, ENTRY = 8;
-enum Op { SPAWN = 0, SPAWN_AWAIT, PAUSE, RES0_D, RES1_D, RES0_A, RES1_A, AWAIT0, AWAIT1, NEST_CALL, NOPS };
+enum Op { SPAWN = 0, SPAWN_AWAIT, PAUSE, RES0_D, RES1_D, RES0_A, RES1_A, AWAIT0, AWAIT1, NEST_CALL, START_FUT, NOPS };
 
 struct Prog {
     // program
@@ -125,6 +125,23 @@ async<void> script(Prog *P, int id) {
                 co_await P->gate_p[k](P->gval[k]);      // nothing became ready: must not give up control
             }
             break; }
+        case START_FUT: {           // start a child as a future (async::start()) from inside the running coroutine: the child runs now, nested in
+                                    // this activation; nothing else may run before the starter suspends or finishes (plans give the child an empty script)
+            int c = P->created++;
+            P->push1(c); P->direct |= 1u << c;
+            int before = 0;
+            for (int i = 0; i < MAXC; ++i) if (i != c) before += P->resumes[i];
+            P->running = -1;                        // the child executes inside the call
+            {
+                future<void> f = script(P, c).start();
+                VF_ASSERT(f.ready(), "VF_SPEC the child started as a future has an empty script and finishes at once");
+            }
+            int after = 0;
+            for (int i = 0; i < MAXC; ++i) if (i != c) after += P->resumes[i];
+            VF_ASSERT(after == before, "C05 a coroutine made ready does not run before the running coroutine suspends or finishes (it ran inside a nested start())");
+            VF_ASSERT(P->running == -1 && P->finished[c] == 1, "VF_SPEC the nested child finished");
+            P->running = id;
+            break; }
         case NEST_CALL:             // not part of the default plans (see C05.py): the running coroutine calls install_queue_and_call itself
             coro_queue::install_queue_and_call([] {});
             break;
@@ -159,7 +176,7 @@ extern "C" void h_prog() {
         P.len[i] = vf_choice(MAXL + 1);
         for (int j = 0; j < P.len[i]; ++j) {
             P.ops[i][j] = vf_choice(NOPS);
-            if (P.ops[i][j] == SPAWN || P.ops[i][j] == SPAWN_AWAIT) P.n++;
+            if (P.ops[i][j] == SPAWN || P.ops[i][j] == SPAWN_AWAIT || P.ops[i][j] == START_FUT) P.n++;
         }
         VF_ASSERT(P.n <= MAXC, "VF_SPEC program creates at most 4 coroutines");
         VF_ASSUME(P.n <= MAXC);
